@@ -237,6 +237,21 @@ class Gen:
         i = self.add({"op": "http", "method": "POST", "target": "/import", "body": body})
         self.frames.append(i)
 
+    def op_bad_body(self):
+        """a body that cannot be read to its end: broken chunk framing, or fewer bytes than Content-Length announces and
+        then the client stops sending - a client error, answered 4xx, nothing stored (no frame, no content)"""
+        target = self.r.choice(["/t", "/t?ttl=forever", "/cas", "/import", "/a?context=" + (self.ctx_q() or "0" * 25)])
+        if self.r.random() < 0.5:
+            tail = self.r.choice([b"5\r\nhello\r\nZZ\r\n", b"3\r\nabc\r\n-1\r\n", b"5\r\nhel", b"g\r\n"])
+            op = {"op": "http", "method": "POST", "target": target, "raw_tail_hex": tail.hex(), "te_chunked": True,
+                  "half_close": self.r.random() < 0.7}
+        else:
+            part = self.r.choice([b"0123456789", b"{\"topic\":", b""])
+            op = {"op": "http", "method": "POST", "target": target, "raw_tail_hex": part.hex(), "content_length": len(part) + self.r.choice([1, 90]),
+                  "half_close": True}
+        op["read_ms"] = 2500
+        self.add(op)
+
     def op_misc(self):
         self.add(self.r.choice([
             {"op": "http", "method": "GET", "target": "/version"},
@@ -267,8 +282,8 @@ class Gen:
 
 
 WEIGHTS = {
-    "C13": {"append": 30, "get": 14, "cat": 14, "head": 8, "cas": 8, "import": 8, "misc": 8, "head_follow": 3, "cat_follow_bg": 3, "cat_follow_pulse": 2, "register": 2},
-    "C10": {"append": 40, "cas": 30, "get": 5, "cat": 8, "head": 4, "import": 3, "misc": 3, "cat_follow_bg": 5},
+    "C13": {"append": 30, "get": 14, "cat": 14, "head": 8, "cas": 8, "import": 8, "misc": 8, "head_follow": 3, "cat_follow_bg": 3, "cat_follow_pulse": 2, "register": 2, "bad_body": 4},
+    "C10": {"append": 40, "cas": 30, "get": 5, "cat": 8, "head": 4, "import": 3, "misc": 3, "cat_follow_bg": 5, "bad_body": 5},
     "C06": {"append": 35, "cat": 15, "head": 12, "head_follow": 12, "cat_follow_bg": 10, "register": 6, "get": 4, "import": 4},
 }
 
@@ -359,6 +374,8 @@ def run_case(case):
                         hx["import_text"] = body.decode("utf-8")
                     except Exception:
                         hx["import_text"] = "\x00not-utf8"
+                if op.get("raw_tail_hex") is not None:
+                    hx["body_broken"] = True        # the body section cannot be read to its end
                 op["hx"] = hx
             try:
                 obs = w.call(op, timeout=60)
